@@ -238,7 +238,7 @@ fn main() {
     run_property(prop, |ctx| {
         let mut gens = vec![];
         // ---- start time / trigger / carousel
-        let n1 = ctx.tier.pick(3000usize, 100_000);
+        let n1 = ctx.tier.pick(3000usize, 500_000);
         gens.push(Gen::new("start_carousel_trigger", n1, move |ctx, i| {
             let mut rng = Rng::keyed(ctx.seed, "C14a", 0, i as u64);
             let kind = rng.below(24) as usize;
@@ -287,7 +287,7 @@ fn main() {
             cr
         }));
         // ---- pacing: single object, drain polling => never early AND prompt
-        let n2 = ctx.tier.pick(3000usize, 100_000);
+        let n2 = ctx.tier.pick(3000usize, 500_000);
         gens.push(Gen::new("pacing_single_object", n2, move |ctx, i| {
             let mut rng = Rng::keyed(ctx.seed, "C14b", 0, i as u64);
             let kind = rng.below(18) as usize; // no "standing still" bursts needed here but allowed below
